@@ -266,6 +266,66 @@ def build_dht_message(ck, src, obs=None):
     return {"eng": eng, "hyps": hyps, "goals": {g: z3.Implies(pc, f) for g, f in G.items()}, "reach": {"reach_oversized": z3.And(pc, big), "reach_decoded": z3.And(pc, z3.Not(big))}}
 
 
+MAX_RECORD = 512
+
+
+def build_record(ck, src, obs=None):
+    """placement::dht_records::DhtRecord::deserialize: input longer than 512 bytes is refused BEFORE the postcard decoder sees it (the decoder call is recorded with
+    its path condition); DhtRecord::serialize refuses an encoding longer than 512 bytes"""
+    import re as _re
+
+    from summaries import RESULT
+    from values import VBlob
+
+    eng = ck.engine() if obs is None else ck.meta_engine()
+    ln = src.bv("data.len", 64)
+    eln = src.bv("encoded.len", 64)
+    hyps = list(src.hyps) + [z3.ULE(ln, bv(1 << 21, 64)), z3.ULE(eln, bv(1 << 21, 64))]
+    if obs is None:
+        decoded = []
+
+        def h_dec(e, s_, a, d, c, m):
+            decoded.append(s_.pc)
+            return VEnum(RESULT, bv(1, 8), {1: (VOpaque("postcard::Error"),)})
+
+        def h_take(e, s_, a, d, c, m):
+            decoded.append(s_.pc)
+            return VEnum(RESULT, bv(1, 8), {1: (VOpaque("postcard::Error"),)})
+
+        def h_enc(e, s_, a, d, c, m):
+            return VEnum(RESULT, bv(0, 8), {0: (VBlob(src.bv("encoded.id", 64), eln),), 1: (VOpaque("postcard::Error"),)})
+
+        eng.summaries.insert(0, (_re.compile(r"^(postcard::)?(from_bytes|take_from_bytes)::<.*DhtRecord.*>$"), h_dec,
+                                 "postcard::from_bytes / take_from_bytes::<DhtRecord>: the call is recorded with its path condition; the decode outcome is the environment (fails)"))
+        eng.summaries.insert(0, (_re.compile(r"^(postcard::)?to_stdvec::<.*DhtRecord>$"), h_enc, "postcard::to_stdvec(&DhtRecord) -> an encoding of ARBITRARY length"))
+        st = State()
+        fn = [n for n in ck.crate.find(r"dht_records::<impl at [^>]*>::deserialize$") if (eng.impl_info(n) or (None, None))[1] == "DhtRecord"]
+        if len(fn) != 1:
+            raise harness.SymError("DhtRecord::deserialize not found: " + str(fn))
+        st2, out = eng.call(fn[0], [eng.alloc(st, VBlob(src.bv("data.id", 64), ln))], st)
+        pc = st2.pc
+        dec = z3.Or(*decoded) if decoded else z3.BoolVal(False)
+        is_err = out.idx == bv(1, 8)
+        refused_before = z3.And(is_err, z3.Not(dec))
+        fs = [n for n in ck.crate.find(r"dht_records::<impl at [^>]*>::serialize$") if (eng.impl_info(n) or (None, None))[1] == "DhtRecord"]
+        if len(fs) != 1:
+            raise harness.SymError("DhtRecord::serialize not found: " + str(fs))
+        st3, out3 = eng.call(fs[0], [eng.alloc(st, VOpaque("record"))], st)
+        ser_ok = z3.And(st3.pc, out3.idx == bv(0, 8))
+        ser_len = out3.pay[0][0].len if 0 in out3.pay else bv(0, 64)
+        ser_goal = z3.Implies(st3.pc, z3.And((out3.idx == bv(0, 8)) == z3.ULE(eln, bv(MAX_RECORD, 64)), z3.Implies(out3.idx == bv(0, 8), ser_len == eln)))
+    else:
+        pc = z3.BoolVal(True)
+        refused_before = z3.BoolVal(bool(obs["refused_before_decode"]))
+        is_err = z3.BoolVal(bool(obs["is_err"]))
+        ser_goal = z3.BoolVal(True)
+    big = z3.UGT(ln, bv(MAX_RECORD, 64))
+    G = {"oversized_record_is_refused_before_decoding": z3.Implies(pc, z3.Implies(big, refused_before)),
+         "record_within_the_bound_reaches_the_decoder": z3.Implies(pc, z3.Implies(z3.Not(big), z3.Not(refused_before))),
+         "a_record_serialises_only_if_its_encoding_is_within_the_bound": ser_goal}
+    return {"eng": eng, "hyps": hyps, "goals": G, "reach": {"reach_oversized": z3.And(pc, big), "reach_decoded": z3.And(pc, z3.Not(big))}}
+
+
 def run(tier):
     ck = MirCheck("C05", tier)
     for kind in ("store", "find_node", "find_value"):
@@ -311,13 +371,27 @@ def run(tier):
         ck.out.samples.append({"obligation": "dht_message", "goals": list(R["goals"])})
 
     ck.guarded("dht_message", regm)
+
+    def regr():
+        src = Src()
+        R = build_record(ck, src)
+        rp = harness.make_replayer(ck, "dht_records", "record_decode", lambda s, obs: build_record(ck, s, obs), {})
+        ck.register_src("record_decode", {}, src)
+        for g, f in R["goals"].items():
+            ck.prove(f"dht_record/{g}", R["eng"], R["hyps"], f, on_sat=rp, meta={"goal": g})
+        for g, f in R["reach"].items():
+            ck.reach(f"dht_record/{g}", R["eng"], R["hyps"], f)
+        ck.side("dht_record/side", R["eng"], R["hyps"], on_sat=rp)
+        ck.out.samples.append({"obligation": "dht_record", "goals": list(R["goals"])})
+
+    ck.guarded("dht_record", regr)
     ck.run_queries()
     ck.out.bounds = ["network::parse_protocol_message for an ARBITRARY decode result (every WireMessage the postcard decoder can produce, or an error), every u64 timestamp, every connection identity and every claimed `from`",
                      "clock: any SystemTime with seconds < 2^40 (so now+30 cannot wrap)",
                      "DhtCoreEngine::handle_request (async): Store / FindNode / FindValue from an arbitrary data store: 512-byte value cap, find-node count cap, K for find-value",
-                     "DhtNetworkManager::handle_dht_message (async): frames of any length up to 2 MiB: longer than 64 KiB is refused before the decoder is called"]
+                     "DhtNetworkManager::handle_dht_message (async): frames of any length up to 2 MiB: longer than 64 KiB is refused before the decoder is called",
+                     "placement::dht_records::DhtRecord::{deserialize, serialize}: inputs / encodings of any length up to 2 MiB: longer than 512 bytes is refused, on the decode side before the decoder is called"]
     ck.out.outside = ["that message handling returns normally for every byte string up to 128 KiB and the decoders' allocation bounds (postcard decoding is summarised, not executed)",
-                      "DhtRecord size checks (placement records)",
                       "TransportHandle::parse_request_envelope"]
     ck.out.assumptions = ["tracing macros are effect-free", "topic and payload are abstract values compared by identity; the claimed sender and the connection identity are byte-level strings of at most 4 printable ASCII bytes"]
     ck.out.trusted.append("z3 4.8.12 / z3 5.1 / cvc5 1.0 portfolio")
@@ -330,6 +404,8 @@ def replay(path):
             return lambda s, obs: build_dispatch(ck, params["kind"], s, obs)
         if driver == "dht_message":
             return lambda s, obs: build_dht_message(ck, s, obs)
+        if driver == "record_decode":
+            return lambda s, obs: build_record(ck, s, obs)
         return lambda s, obs: build(ck, s, obs)
 
     return harness.replay_file(path, rebuild)
